@@ -13,7 +13,9 @@ def check(ctx):
         "record.events / properties to record.properties; R4 the commit and sweep releases pass the trace's own "
         "ActiveCollector.danglings (attachments survive cycles); R5 a DropCollect discards parked attachments only when "
         "cancelable; R6 capture_local_spans opens a scope on every path, so local attachments made under an inner span "
-        "cannot land on the enclosing one; R7 every (key, value) conversion closure keeps key and value in place.")
+        "cannot land on the enclosing one; R7 every (key, value) conversion closure keeps key and value in place; R8 the key attachments are parked under "
+        "identifies one delivered record (known finding K3: the key is the span id alone while a span with two parents "
+        "in one trace is delivered as two copies with that id).")
     ctx.not_decided = ("'exactly once ... on no other', order across routes, arbitrary strings: values are moved, never "
                        "inspected (origins show only clone/to_vec/into), equality of contents is a runtime fact.")
     facts = ctx.facts("E")
